@@ -27,6 +27,31 @@ let dec_op (s : Stdlib.String.t) : op =
 
 let cat sep l = Stdlib.String.concat sep l
 
+(* extended histories (Model/DbExt.v):
+     xhist TAB path(,) TAB read-only stacks(,) TAB texts path=text;... TAB op|op|... TAB universe
+   a declaration is  D,f,s,F,N,n,v,dir,tk,targ,tag,ext  with tk = d (default) p (path targ) n (none) s (stream, text targ)
+   and ext = src>out+src>out or ~ ; every other op as in hist.
+   output per op: outcome#decls#tags#dirs#vfiles#cfiles#resolve#xfiles#neffects with xfiles = path=text;... *)
+let dec_xop (s : Stdlib.String.t) : xop =
+  let a = Array.of_list (String.split_on_char ',' s) in
+  match a.(0) with
+  | "D" ->
+    let o = { o_flavor = dec_str a.(1); o_stack = opt a.(2); o_force = bool_of_field a.(3);
+              o_noaction = bool_of_field a.(4) } in
+    let tb = (match a.(8) with
+        | "d" -> TDefault | "p" -> TPath (dec_str a.(9)) | "n" -> TNone | "s" -> TStream (dec_str (if a.(9) = "~" then "" else a.(9)))
+        | _ -> failwith "bad table spec") in
+    let ext = if a.(11) = "~" then [] else
+        List.map (fun it -> match Stdlib.String.split_on_char '>' it with
+            | [x; y] -> (dec_str x, dec_str y) | _ -> failwith "bad ext") (Stdlib.String.split_on_char '+' a.(11)) in
+    XDeclare (o, dec_str a.(5), dec_str a.(6), opt a.(7), tb, opt a.(10), ext)
+  | _ -> XOld (dec_op s)
+
+let dec_pairs (s : Stdlib.String.t) : (ascii list * ascii list) list =
+  if s = "" then [] else
+  List.map (fun kv -> match Stdlib.String.split_on_char '=' kv with
+      | [k; v] -> (dec_str k, dec_str v) | [k] -> (dec_str k, []) | _ -> failwith "bad pair") (Stdlib.String.split_on_char ';' s)
+
 let show_state (univ : (ascii list list * ascii list list) * ascii list list) (d : db) : Stdlib.String.t =
   let a = view d in
   let ((names, tags_u), flavs) = univ in
@@ -63,6 +88,21 @@ let handle (f : Stdlib.String.t array) : Stdlib.String.t =
           d := apply es !d;
           cat "#" ["ok"; show_state !d; string_of_int (List.length es)]
         | Err k -> cat "#" ["err:" ^ err_name k; show_state !d; "0"]) ops in
+    cat "\t" out
+  | "xhist" ->
+    let path = dec_strlist ',' f.(1) in
+    let e = { e_ro = dec_strlist ',' f.(2); e_text = dec_pairs f.(3) } in
+    let ops = List.map dec_xop (split_sep '|' f.(4)) in
+    let univ = (match Stdlib.String.split_on_char ';' f.(5) with
+        | [a; b; c] -> ((dec_strlist ',' a, dec_strlist ',' b), dec_strlist ',' c)
+        | _ -> failwith "bad universe") in
+    let show x = cat "#" [show_state univ x.xd;
+                          cat ";" (List.map (fun (k, v) -> enc_str k ^ "=" ^ enc_str v) x.xfiles)] in
+    let x = ref (xempty path) in
+    let out = List.map (fun o ->
+        match xstep e !x o with
+        | Ok x' -> x := x'; cat "#" ["ok"; show !x; "0"]
+        | Err k -> cat "#" ["err:" ^ err_name k; show !x; "0"]) ops in
     cat "\t" out
   | _ -> failwith "unknown request"
 
